@@ -1,9 +1,38 @@
 import Driver.Util
+import MpcVerif.Model.GarblerProc
 
 namespace Drv.C04
+open Mpc.GProc
 
-/-- Line-protocol handler of property C04 (stub). -/
-def handle (_args : List String) : String := "bad-op"
+/-- `S<s>` start, `F<s>.<k>` failed Garble, `Ob<s>` / `Oe<s>` OT send call /
+return, `D<s>` result loop. -/
+def parseEv (t : String) : Option PEv :=
+  if t.startsWith "Ob" then (t.drop 2).toString.toNat?.map .otBegin
+  else if t.startsWith "Oe" then (t.drop 2).toString.toNat?.map .otEnd
+  else if t.startsWith "S" then (t.drop 1).toString.toNat?.map .start
+  else if t.startsWith "D" then (t.drop 1).toString.toNat?.map .decode
+  else if t.startsWith "F" then
+    match (t.drop 1).toString.splitOn "." with
+    | [a, b] => do some (.fail (← a.toNat?) (← b.toNat?))
+    | _ => none
+  else none
+
+/-- Line-protocol handler of property C04.
+
+`c04proc <early 0|1> <event> <event> …`: a history of a garbler process that
+serves overlapping sessions on one shared circuit value
+(`Model/GarblerProc.lean`); answers whose garbling every session's OT served
+and whether its result loop decoded. -/
+def handle (args : List String) : String :=
+  match args with
+  | early :: evs =>
+    match evs.mapM parseEv with
+    | some es =>
+      match runDigest (early == "1") es with
+      | some st => render st
+      | none => "reject"
+    | none => "bad-op"
+  | _ => "bad-op"
 
 end Drv.C04
 
